@@ -467,6 +467,9 @@ func (area) Gen(r *hx.Rng, n int, _ string, emit func(string)) {
 			}
 		}
 		g.sandbox()
+		if r.Chance(1, 12) { // write fault: no file may grow beyond this many bytes during the extraction
+			g.items = append(g.items, fmt.Sprintf("w:%d", hx.Pick(r, []int{0, 1, 5, 20, 512, 40000})))
+		}
 		pre := 0
 		if r.Bool() {
 			pre = r.Intn(4) // benign entries before a scenario
